@@ -8,8 +8,16 @@
      RuntimeErr        nofunc<id>()               (unknown function: util.ErrUnknownConstruct)
      Return v          return v
      Break / Continue  break / continue
-     If brs els        if g1 { b1 } elif g2 { b2 } ... else { els }      (guards true/false)
-     LoopCond n b      c<id> := n ; for c<id> > 0 { c<id> := c<id> - 1 ; b }
+     If brs els        if g1 { b1 } elif g2 { b2 } ... else { els }
+                       guard GBool b: the literal true / false;
+                       guard GEval n o: a call gt(n) / gf(n) / gr<t>(n) / gr0(n) of a prelude function
+                       that logs mark(n) and then returns true / returns false / raises "T<t>" /
+                       fails with a runtime error (call of an unknown function)
+     LoopCond n None b c<id> := n ; for c<id> > 0 { c<id> := c<id> - 1 ; b }
+     LoopCond n (Some (m, k)) b
+                       c<id> := n ; for cr<k>(c<id>, m) { c<id> := c<id> - 1 ; b }
+                       (the condition holds n times; evaluated once more it logs mark(m) and raises)
+     LoopSrc n k b     for x<id> in gr<k>(n) { iter(x<id>) ; b }    (the iterated expression raises)
      LoopRange f t s b for i<id> in range(f, t, s) { iter(i<id>) ; b }
      LoopList xs b     for x<id> in [x1, x2, ...] { iter(x<id>) ; b }
      LoopMap ks b      m<id> := {"k1": "vk1", ...} ; for [k<id>, v<id>] in m<id> { kv(k<id>, v<id>) ; b }
@@ -30,6 +38,16 @@ Inductive ety : Type :=
 
 Inductive binder : Type := BNone | BAs | BIdent.
 
+(* an error a guard / condition / iterated expression raises: raise("T<t>", ..) or the
+   built-in runtime error *)
+Inductive errk : Type := KUser (t : nat) | KRuntime.
+
+Inductive gout : Type := GTrue | GFalse | GFail (k : errk).
+
+Inductive guard : Type :=
+| GBool (b : bool)                 (* literal *)
+| GEval (n : nat) (o : gout).      (* evaluation is logged as EvMark n, then the outcome *)
+
 Inductive stmt : Type :=
 | Mark (n : nat)
 | Raise (t : nat)
@@ -37,8 +55,9 @@ Inductive stmt : Type :=
 | Return (v : nat)
 | Break
 | Continue
-| If (branches : list (bool * list stmt)) (els : option (list stmt))
-| LoopCond (n : nat) (body : list stmt)
+| If (branches : list (guard * list stmt)) (els : option (list stmt))
+| LoopCond (n : nat) (fail : option (nat * errk)) (body : list stmt)
+| LoopSrc (n : nat) (k : errk) (body : list stmt)
 | LoopRange (from to step : Z) (body : list stmt)
 | LoopList (xs : list Z) (body : list stmt)
 | LoopMap (keys : list key) (body : list stmt)
